@@ -622,3 +622,48 @@ def rwvmSelectKinds : List String := ["int", "str", "code"]'''
 
 
 TARGETS['T19q'] = {'file': 'pixels.py', 'build': build_T19q}
+
+
+# ------------------------------------------------------------------ T19f: what the read entry points forward to the pixel transform
+def build_T19f(tree):
+    """`image.py`: for the public read entry points `get_frame`, `get_frames`, `get_volume` and the internal `_get_pixels_by_frame`
+    every call of `_CombinedPixelTransform(..)` / `self._get_pixels_by_frame(..)` with the expressions passed for `frame_index`,
+    `apply_real_world_transform`, `real_world_value_map_selector`; and where `get_frame`'s `frame_index` comes from.  The model's
+    `readReal o f sel` hands the caller's selector and the frame's own index to the mapping search: `Proofs/PMapTie.read_forwarding_tie`
+    states that on this table."""
+    KEYS = ('frame_index', 'apply_real_world_transform', 'real_world_value_map_selector')
+    rows, spans = [], []
+    for cls, meth in (('_Image', 'get_frame'), ('_Image', 'get_frames'), ('_Image', '_get_pixels_by_frame'), ('Image', 'get_volume')):
+        fn = find_func(tree, f'{cls}.{meth}')
+        if fn.decorator_list:
+            raise Unsupported(f'{meth} is wrapped by a decorator')
+        calls = [n for n in ast.walk(fn) if isinstance(n, ast.Call)
+                 and ast.unparse(n.func) in ('_CombinedPixelTransform', 'self._get_pixels_by_frame')]
+        calls.sort(key=lambda n: n.lineno)
+        if not calls:
+            raise Unsupported(f'{meth} no longer reaches the pixel transform')
+        for k, c in enumerate(calls):
+            if any(kw.arg is None for kw in c.keywords):
+                raise Unsupported(f'{meth}: **kwargs in the call of {ast.unparse(c.func)}')
+            callee = ast.unparse(c.func).replace('self.', '') + f'#{k}'
+            got = {kw.arg: ast.unparse(kw.value) for kw in c.keywords}
+            for key in KEYS:
+                rows.append((meth, callee, key, got.get(key, '<not passed>')))
+            spans.append(c)
+        if meth == 'get_frame':
+            asg = [s for s in ast.walk(fn) if isinstance(s, ast.Assign) and ast.unparse(s.targets[0]) == 'frame_index']
+            rows.append((meth, 'local', 'frame_index', ast.unparse(asg[0].value) if len(asg) == 1 else '<not one assignment>'))
+            spans.extend(asg)
+        # the parameters themselves must not be rebound on the way
+        for name in ('real_world_value_map_selector', 'apply_real_world_transform'):
+            if any(isinstance(n, ast.Name) and isinstance(n.ctx, ast.Store) and n.id == name for n in ast.walk(fn)):
+                raise Unsupported(f'{meth}: parameter {name} is reassigned before it is forwarded')
+    q = lambda s: '"' + s.replace('\\', '\\\\').replace('"', '\\"') + '"'   # noqa: E731
+    text = lean_table('pmReadForwarding', 'List (String × String × String × String)',
+                      ['(' + ', '.join(q(x) for x in r) + ')' for r in rows],
+                      doc='(entry point, callee#k, keyword, expression passed): what `get_frame`, `get_frames`, `get_volume`, '
+                          '`_get_pixels_by_frame` forward to `_CombinedPixelTransform` / `_get_pixels_by_frame`')
+    return text, span_sha(spans)
+
+
+TARGETS['T19f'] = {'file': 'image.py', 'build': build_T19f}
